@@ -521,7 +521,12 @@ def _matches_field_values(
         # For on.update/on.field, so as for on.create/resume/delete for uniformity and simplicity:
         old = dicts.resolve(cause.old, handler.field, absent)
         new = dicts.resolve(cause.new, handler.field, absent)
-        values = [new, old]  # keep "new" first, to avoid "old" callbacks if "new" works.
+        # A creation has no old state at all (``cause.old is None``): for the handlers that check
+        # the object's current state only (not on.update/on.field, which belong to both sides of
+        # a change), "absent in the non-existent old state" is not a match.
+        # Otherwise, keep "new" first, to avoid "old" callbacks if "new" works.
+        current_only = cause.old is None and not getattr(handler, 'field_needs_change', False)
+        values = [new] if current_only else [new, old]
     else:
         # For event-watching, timers/daemons (could also work for on.create/resume/delete):
         val = dicts.resolve(cause.body, handler.field, absent)
